@@ -38,3 +38,14 @@ func (q *VerifPacketQueue) ResetLen() int { return len(q.pq._reset) }
 
 // VerifSetYieldHandler installs the handler called at every verifhook.Yield point.
 func VerifSetYieldHandler(fn func(point string)) { verifhook.SetHandler(fn) }
+
+// VerifSendBufferMu returns the address of the mutex that guards a client socket's sendBuffer
+// (the send-or-park decision of an emit and the flush of the CONNECT reply exclude each other
+// under it), so that a harness with instrumented mutexes can recognise it.  nil if not a client socket.
+func VerifSendBufferMu(socket ClientSocket) any {
+	s, ok := socket.(*clientSocket)
+	if !ok {
+		return nil
+	}
+	return &s.sendBufferMu
+}
